@@ -33,6 +33,11 @@ def clean():
     sh("git checkout -q -- . ; git clean -fdq -e out -e target -e SEED_TASK.md")
 
 
+# the harness at /verif HEAD needs the hooks of /repo HEAD: judge every change on /repo's HEAD
+sh("git reset -q --hard HEAD; git clean -fdq -e out -e target -e SEED_TASK.md; "
+   "git checkout -q --detach $(git -C /repo rev-parse HEAD)")
+print(f"worktree {wt} at", sh("git rev-parse --short HEAD")[1].strip(), flush=True)
+
 for k in ks:
     out = f"{wt}/out/{k}"
     meta = json.load(open(f"{out}/meta.json"))
@@ -68,6 +73,12 @@ for k in ks:
         rc, o = sh(f"VERIF_REPO={wt} ./check {pid} --tier {tier}", cwd="/verif", e=dict(os.environ))
         lines = [l for l in o.splitlines() if l.startswith("VIOLATION") or l.startswith(pid + ":") or l.startswith("KNOWN-FINDING")]
         chk[tier] = {"exit": rc, "lines": lines[-6:]}
+        m0 = re.search(r"tie_cases=(\d+)", o)
+        chk[tier]["tie_cases"] = int(m0.group(1)) if m0 else 0
+        if rc != 0 and ("problem[harness-build]" in o or chk[tier]["tie_cases"] == 0):
+            chk[tier]["not_judged"] = "the harness did not build / no tie case ran against the patched tree: NOT a detection"
+            chk[tier]["tail"] = o[-600:]
+            break
         if rc != 0:
             m = re.search(r"replay=(\S+)", o)
             if m and os.path.exists(m.group(1)):
@@ -77,7 +88,7 @@ for k in ks:
                 chk[tier]["replay_first_verdicts"] = rp.get("verdicts", [])[:3]
             break
     clean()
-    caught = any(v["exit"] != 0 for v in chk.values())
+    caught = any(v["exit"] != 0 and "not_judged" not in v for v in chk.values())
     dst = f"/verif/seeded/{pid}-{k}"
     os.makedirs(dst, exist_ok=True)
     history = ""
